@@ -56,7 +56,7 @@ def apply_unfolders(sid: str, unfolders: List[Callable]) -> List[Sid]:
         done = func(result)
         result = done
 
-    return sorted(set(result))
+    return sorted(set(result), key=lambda s: (str(s), s.type))  # Sids of different types may share their string
 
 
 @cache
